@@ -598,9 +598,11 @@ def d12_hankel_and_nan(ctx, mod):
             for T_ in range(3, 9):
                 class _S:
                     T = T_
+                    content = [[0.0]] * T_         # every timeslice defined: a test for undefined entries joined with `or` does not fire
                 for N_ in range(1, 4):
                     for t_ in range(T_):
-                        got = bool(eval(compile(ast.Expression(body=tests[0]), '<cutoff>', 'eval'), {'__builtins__': {}}, {'self': _S, 'periodic': False, 'N': N_, 't': t_}))
+                        glb_ = {'__builtins__': {'any': any, 'all': all, 'range': range, 'len': len}, 'self': _S, 'periodic': False, 'N': N_, 't': t_, 'wrap': (lambda i_, T__=T_: i_ % T__)}
+                        got = bool(eval(compile(ast.Expression(body=tests[0]), '<cutoff>', 'eval'), glb_))
                         if got != (t_ + 2 * (N_ - 1) > T_ - 1):
                             wrong.append((T_, N_, t_))
             ctx.check(rule, key, not wrong, 'without periodicity a timeslice is undefined exactly when its last entry C(t + 2(N-1)) lies beyond T-1',
